@@ -45,6 +45,9 @@ def coeffsUsed (order npix : Nat) : Nat := min (coeffsLen order) (min npix (mode
 sample). -/
 abbrev Vec (K : Type) (n : Nat) := Vector K n
 
+/-- The all-zero field. -/
+def zeroVec (K : Type) [OfNat K 0] (n : Nat) : Vec K n := Vector.ofFn fun _ => 0
+
 section Scalar
 variable {K : Type} [Add K] [Sub K] [Mul K] [Div K] [OfNat K 0] [OfNat K 1] [Pow K Nat]
 
